@@ -1,16 +1,237 @@
 import ApdVerif.Spec.Agrees
+import ApdVerif.Lemmas.MulLemmas
 /-! # Mul agrees with the specification (exact product, `setExponent`, then `round`: no double rounding) -/
 namespace Apd.Props
 open Apd Apd.Oracle
 
+theorem empty_or (a : Cond) : ({} : Cond) ||| a = a := by
+  apply Cond.ext' <;> simp
+
+/-- `mulOp` on finite operands -/
+theorem mulOp_finite (c : Ctx) (x y : Dec) (hx : x.form = .finite) (hy : y.form = .finite) :
+    mulOp c x y =
+      finish c ((ctxRound c (setExponent c
+          { form := .finite, neg := x.neg != y.neg, exp := 0, coeff := x.coeff * y.coeff } {} [x.exp, y.exp]).1).1,
+        (setExponent c
+          { form := .finite, neg := x.neg != y.neg, exp := 0, coeff := x.coeff * y.coeff } {} [x.exp, y.exp]).2 |||
+        (ctxRound c (setExponent c
+          { form := .finite, neg := x.neg != y.neg, exp := 0, coeff := x.coeff * y.coeff } {} [x.exp, y.exp]).1).2) := by
+  simp [mulOp, shouldSetAsNaN, Dec.isNaN, hx, hy]
+
+/-- agreement for an exact zero only depends on the result being a fitting zero of the right sign -/
+theorem agrees_zero (c : Ctx) (neg : Bool) (E : Int) (d : Dec) (fl : Cond)
+    (hf : d.form = .finite) (h0 : d.coeff = 0) (hn : d.neg = neg) (hb : Benign fl)
+    (hp : 1 ≤ c.prec) (he : d.exp ≤ c.emax) :
+    Agrees c { neg := neg, num := 0, den := 1, e10 := E } d fl := by
+  obtain ⟨b1, b2, b3, b4, b5, b6, b7, b8⟩ := hb
+  unfold Agrees FlagsOK
+  rw [spec_zero]
+  refine ⟨?_, ?_, ?_⟩
+  · simp [SpecOut.matches, hf, h0, hn]
+  · simp [SpecOut.underflow, *]
+  · simp [fits, hf, h0, ndigits_zero]
+    omega
+
+theorem mul_core (c : Ctx) (hc : c.WF) (neg : Bool) (N : Nat) (xe ye : Int)
+    (hns : NoSys ((setExponent c { form := .finite, neg := neg, exp := 0, coeff := N } {} [xe, ye]).2 |||
+      (roundX c (setExponent c { form := .finite, neg := neg, exp := 0, coeff := N } {} [xe, ye]).1 true).2)) :
+    Agrees c { neg := neg, num := N, den := 1, e10 := xe + ye }
+      (roundX c (setExponent c { form := .finite, neg := neg, exp := 0, coeff := N } {} [xe, ye]).1 true).1
+      ((setExponent c { form := .finite, neg := neg, exp := 0, coeff := N } {} [xe, ye]).2 |||
+      (roundX c (setExponent c { form := .finite, neg := neg, exp := 0, coeff := N } {} [xe, ye]).1 true).2) := by
+  have hc' := hc
+  obtain ⟨hc1, hc2, hc3, hc4, hc5⟩ := hc'
+  obtain ⟨hns1, hns2⟩ := noSys_or.1 hns
+  generalize hd0 : ({ form := .finite, neg := neg, exp := 0, coeff := N } : Dec) = d0 at *
+  have hd0f : d0.form = .finite := by rw [← hd0]
+  have hd0n : d0.neg = neg := by rw [← hd0]
+  have hd0c : d0.coeff = N := by rw [← hd0]
+  by_cases hN : N = 0
+  · -- exact zero
+    subst hN
+    obtain ⟨z1, z2, z3, z4, _⟩ := setExponent_zero c d0 {} [xe, ye] hd0f hd0c benign_empty hns1
+    generalize setExponent c d0 {} [xe, ye] = r1 at *
+    rw [roundX_zero_eq c r1.1 hc1 z1 z2] at hns2 ⊢
+    obtain ⟨w1, w2, w3, w4, w5⟩ := setExponent_zero c r1.1 {} [r1.1.exp, 0] z1 z2 benign_empty hns2
+    exact agrees_zero c neg _ _ _ w1 w2 (by rw [w3, z3, hd0n]) (benign_or z4 w4) hc1 (w5 hc1 (by omega))
+  · have hNpos : 0 < N := Nat.pos_of_ne_zero hN
+    subst hd0
+    obtain ⟨k1, k2, k3⟩ := setExponent_noSys hns1
+    have hsum : sumInts [xe, ye] = xe + ye := by simp [sumInts]
+    simp only [hsum] at k2 k3
+    have hz : ({ form := .finite, neg := neg, exp := 0, coeff := N } : Dec).isZero = false :=
+      isZero_of_pos _ hNpos
+    have k2' : -100000 ≤ sumInts [xe, ye] +
+        (ndigits ({ form := .finite, neg := neg, exp := 0, coeff := N } : Dec).coeff : Int) - 1 := by
+      rw [hsum]; exact k2
+    have k3' : sumInts [xe, ye] +
+        (ndigits ({ form := .finite, neg := neg, exp := 0, coeff := N } : Dec).coeff : Int) - 1 ≤ 100000 := by
+      rw [hsum]; exact k3
+    have kadj : sumInts [xe, ye] +
+        (ndigits ({ form := .finite, neg := neg, exp := 0, coeff := N } : Dec).coeff : Int) - 1
+        = xe + ye + (ndigits N : Int) - 1 := by rw [hsum]
+    by_cases hsub : xe + ye + (ndigits N : Int) - 1 < c.emin
+    · by_cases hr : xe + ye < c.emin - (c.prec : Int) + 1
+      · -- subnormal, the first call rounds to Etiny; `round` then changes nothing
+        have het : c.emin - ((c.prec : Int) - 1) = c.emin - (c.prec : Int) + 1 := by omega
+        have e1 : ∃ fl1, setExponent c { form := .finite, neg := neg, exp := 0, coeff := N } {} [xe, ye] =
+            ({ form := .finite, neg := neg, exp := c.emin - (c.prec : Int) + 1,
+               coeff := rndCoeff c.mode neg N (c.emin - (c.prec : Int) + 1 - (xe + ye)).toNat }, fl1) ∧
+            fl1.inexact = (N % 10 ^ (c.emin - (c.prec : Int) + 1 - (xe + ye)).toNat != 0) ∧
+            fl1.subnormal = true ∧
+            fl1.underflow = (N % 10 ^ (c.emin - (c.prec : Int) + 1 - (xe + ye)).toNat != 0) ∧
+            fl1.overflow = false ∧ fl1.rounded = true ∧ fl1.divUndefined = false ∧ fl1.divByZero = false ∧
+            fl1.divImpossible = false ∧ fl1.invalidOp = false := by
+          rw [setExponent_sub_round c _ {} _ k1 k2' k3' (by rw [kadj]; omega) (by rw [hsum]; omega)]
+          simp only [hz, het, hsum, seFinish_eq]
+          refine ⟨_, rfl, ?_⟩
+          by_cases hix : N % 10 ^ (c.emin - (c.prec : Int) + 1 - (xe + ye)).toNat = 0 <;>
+          by_cases hm0 : rndCoeff c.mode neg N (c.emin - (c.prec : Int) + 1 - (xe + ye)).toNat = 0 <;>
+          simp [hix, hm0, Cond.cSubnormal, Cond.cInexact, Cond.cClamped, Cond.cRounded, Cond.cUnderflow]
+        obtain ⟨fl1, e1, g1, g2, g3, g4, g5, g6, g7, g8, g9⟩ := e1
+        rw [e1] at hns2 ⊢
+        simp only at hns2 ⊢
+        obtain ⟨hmin, _⟩ := roundX_noSys_exp c _ (by omega) hns2
+        simp only at hmin
+        have hdig := sub_rnd_digits c hc neg N (xe + ye) hNpos hsub hr
+        rw [roundX_id c hc _ rfl hdig (by simp only; omega) hmin (by simp only; omega)]
+        simp only
+        unfold Agrees FlagsOK
+        rw [spec_sub_round c hc neg N (xe + ye) hNpos hsub hr]
+        generalize rndCoeff c.mode neg N (c.emin - (c.prec : Int) + 1 - (xe + ye)).toNat = m at *
+        generalize (N % 10 ^ (c.emin - (c.prec : Int) + 1 - (xe + ye)).toNat != 0) = ix at *
+        refine ⟨?_, ?_, ?_⟩
+        · simp [SpecOut.matches]
+        · split <;> simp [SpecOut.underflow, Cond.cSubnormal, *]
+        · simp [fits]
+          omega
+      · -- subnormal but nothing to drop
+        have e1 : setExponent c { form := .finite, neg := neg, exp := 0, coeff := N } {} [xe, ye] =
+            ({ form := .finite, neg := neg, exp := xe + ye, coeff := N }, Cond.cSubnormal) := by
+          rw [setExponent_sub_exact c _ {} _ k1 k2' k3' (by rw [kadj]; omega) (by rw [hsum]; omega), hsum]
+          simp [hz, seFinish_eq, empty_or, Cond.cSubnormal]
+        rw [e1] at hns2 ⊢
+        simp only at hns2 ⊢
+        obtain ⟨hmin, _⟩ := roundX_noSys_exp c _ (by omega) hns2
+        simp only at hmin
+        have hp := ndigits_pos N
+        rw [roundX_id c hc _ rfl (show ndigits N ≤ c.prec by omega)
+          (show c.emin - (c.prec : Int) + 1 ≤ xe + ye by omega) hmin
+          (show xe + ye + (ndigits N : Int) - 1 ≤ c.emax by omega)]
+        simp only
+        rw [if_pos ⟨hNpos, hsub⟩]
+        unfold Agrees FlagsOK
+        rw [spec_sub_exact c hc neg N (xe + ye) hNpos hsub (by omega)]
+        refine ⟨?_, ?_, ?_⟩
+        · simp [SpecOut.matches]
+          omega
+        · simp [SpecOut.underflow, Cond.cSubnormal]
+        · simp [fits]
+          omega
+    · by_cases hov : xe + ye + (ndigits N : Int) - 1 > c.emax
+      · -- overflow: the first call already produces the infinity
+        have e1 : setExponent c { form := .finite, neg := neg, exp := 0, coeff := N } {} [xe, ye] =
+            ({ form := .infinite, neg := neg, exp := xe + ye, coeff := N },
+              ({} : Cond) ||| Cond.cOverflow ||| Cond.cInexact) := by
+          rw [setExponent_over c _ {} _ k1 k2' k3' (by rw [kadj]; omega) (by rw [kadj]; omega), hz, hsum]
+          simp [seFinish_eq, Cond.cOverflow, Cond.cInexact]
+        rw [e1] at hns2 ⊢
+        simp only at hns2 ⊢
+        have post := roundX_norm c hc _ hNpos
+          (show c.emin ≤ xe + ye + (ndigits N : Int) - 1 by omega) hns2
+        simp only at post
+        unfold Agrees FlagsOK
+        rw [spec_over c hc neg N _ hNpos (by omega)] at post ⊢
+        obtain ⟨p1, p2, p3, p4, p5, p6, p7, p8, p9, p10, p11, p12, p13⟩ := post
+        have hf := p2 rfl
+        simp only [specInf] at p1 p4 p5 p6 p7
+        refine ⟨?_, ?_, ?_⟩
+        · simp [SpecOut.matches, hf, specInf, p1]
+        · simp [specInf, SpecOut.underflow, Cond.cOverflow, Cond.cInexact, *]
+        · simp [fits, hf]
+      · -- normal range: the first call only sets the exponent
+        have e1 : setExponent c { form := .finite, neg := neg, exp := 0, coeff := N } {} [xe, ye] =
+            ({ form := .finite, neg := neg, exp := xe + ye, coeff := N }, {}) := by
+          rw [setExponent_norm c _ {} _ k1 k2' k3' (by rw [kadj]; omega) (by rw [kadj]; omega), hsum]
+          simp [seFinish_eq]
+        rw [e1] at hns2 ⊢
+        simp only at hns2 ⊢
+        have post := roundX_norm c hc _ hNpos
+          (show c.emin ≤ xe + ye + (ndigits N : Int) - 1 by omega) hns2
+        simp only at post
+        rw [empty_or]
+        exact agrees_of_post post
+
+theorem mul_core0 (c : Ctx) (hc : c.WF0) (hp : c.prec = 0) (neg : Bool) (N : Nat) (xe ye : Int)
+    (hns : NoSys ((setExponent c { form := .finite, neg := neg, exp := 0, coeff := N } {} [xe, ye]).2 |||
+      (roundX c (setExponent c { form := .finite, neg := neg, exp := 0, coeff := N } {} [xe, ye]).1 true).2)) :
+    AgreesExact c { neg := neg, num := N, den := 1, e10 := xe + ye }
+      (roundX c (setExponent c { form := .finite, neg := neg, exp := 0, coeff := N } {} [xe, ye]).1 true).1
+      ((setExponent c { form := .finite, neg := neg, exp := 0, coeff := N } {} [xe, ye]).2 |||
+      (roundX c (setExponent c { form := .finite, neg := neg, exp := 0, coeff := N } {} [xe, ye]).1 true).2) := by
+  obtain ⟨hc1, hc2, hc3, hc4, hc5⟩ := hc
+  obtain ⟨hns1, hns2⟩ := noSys_or.1 hns
+  intro s hs
+  by_cases hN : N = 0
+  · subst hN
+    simp [specExact] at hs
+    subst hs
+    generalize hd0 : ({ form := .finite, neg := neg, exp := 0, coeff := 0 } : Dec) = d0 at *
+    have hd0f : d0.form = .finite := by rw [← hd0]
+    have hd0n : d0.neg = neg := by rw [← hd0]
+    have hd0c : d0.coeff = 0 := by rw [← hd0]
+    obtain ⟨z1, z2, z3, z4, _⟩ := setExponent_zero c d0 {} [xe, ye] hd0f hd0c benign_empty hns1
+    generalize setExponent c d0 {} [xe, ye] = r1 at *
+    rw [roundX_prec0 c r1.1 hp] at hns2 ⊢
+    obtain ⟨w1, w2, w3, w4, _⟩ := setExponent_zero c r1.1 {} [r1.1.exp] z1 z2 benign_empty hns2
+    obtain ⟨b1, b2, b3, b4, _⟩ := benign_or z4 w4
+    refine ⟨?_, b1, b4, b3⟩
+    simp [SpecOut.matches, w1, w2, w3, z3, hd0n]
+  · have hNpos : 0 < N := Nat.pos_of_ne_zero hN
+    have hne : (N == 0) = false := by simp; omega
+    obtain ⟨k1, k2, k3⟩ := setExponent_noSys hns1
+    have hsum : sumInts [xe, ye] = xe + ye := by simp [sumInts]
+    have hsum1 : sumInts [xe + ye] = xe + ye := by simp [sumInts]
+    simp only [specExact, hne] at hs
+    by_cases hrange : (ndigits N : Int) - 1 + (xe + ye) < c.emin ∨ (ndigits N : Int) - 1 + (xe + ye) > c.emax
+    · simp [hrange] at hs
+    · have hr1 : ¬ ((ndigits N : Int) - 1 + (xe + ye) < c.emin) := fun h => hrange (Or.inl h)
+      have hr2 : ¬ ((ndigits N : Int) - 1 + (xe + ye) > c.emax) := fun h => hrange (Or.inr h)
+      simp [hr1, hr2] at hs
+      subst hs
+      have e1 : setExponent c { form := .finite, neg := neg, exp := 0, coeff := N } {} [xe, ye] =
+          ({ form := .finite, neg := neg, exp := xe + ye, coeff := N }, {}) := by
+        rw [setExponent_norm c _ {} _ k1 k2 k3 (by rw [hsum]; show c.emin ≤ xe + ye + (ndigits N : Int) - 1; omega)
+          (by rw [hsum]; show xe + ye + (ndigits N : Int) - 1 ≤ c.emax; omega), hsum]
+        simp [seFinish_eq]
+      rw [e1] at hns2 ⊢
+      simp only at hns2 ⊢
+      rw [roundX_prec0 c _ hp] at hns2 ⊢
+      obtain ⟨j1, j2, j3⟩ := setExponent_noSys hns2
+      have e2 : setExponent c { form := .finite, neg := neg, exp := xe + ye, coeff := N } {} [xe + ye] =
+          ({ form := .finite, neg := neg, exp := xe + ye, coeff := N }, {}) := by
+        rw [setExponent_norm c _ {} _ j1 j2 j3
+          (by rw [hsum1]; show c.emin ≤ xe + ye + (ndigits N : Int) - 1; omega)
+          (by rw [hsum1]; show xe + ye + (ndigits N : Int) - 1 ≤ c.emax; omega), hsum1]
+        simp [seFinish_eq]
+      rw [e2]
+      simp [SpecOut.matches]
+
 theorem C01_mul (c : Ctx) (hc : c.WF) (x y : Dec) (hx : x.form = .finite) (hy : y.form = .finite)
     (h : Delivered (mulOp c x y).err) :
     Agrees c (exactMul x y) (mulOp c x y).d (mulOp c x y).fl := by
-  sorry
+  rw [mulOp_finite c x y hx hy] at h ⊢
+  simp only [finish] at h ⊢
+  exact mul_core c hc _ _ _ _ (noSys_of_delivered h)
 
 theorem C01_mul_prec0 (c : Ctx) (hc : c.WF0) (hp : c.prec = 0) (x y : Dec)
     (hx : x.form = .finite) (hy : y.form = .finite) (h : Delivered (mulOp c x y).err) :
     AgreesExact c (exactMul x y) (mulOp c x y).d (mulOp c x y).fl := by
-  sorry
+  rw [mulOp_finite c x y hx hy] at h ⊢
+  simp only [finish] at h ⊢
+  exact mul_core0 c hc hp _ _ _ _ (noSys_of_delivered h)
 
 end Apd.Props
+
+#print axioms Apd.Props.C01_mul
+#print axioms Apd.Props.C01_mul_prec0
